@@ -24,4 +24,10 @@ CHECKS = {
   "note": COMMON_NOTE + "Python set/dict semantics, set.pop() and random.sample are modelled as duplicate-free lists with universally quantified pick/sampler oracles; the three archive methods are one function on ids (ids distinct); 0 < SAMPLE_SIZE is checked on the source value at run time.",
   "technique": "Coq proof by state invariant + decreasing measure over a nondeterministic (oracle-driven) model of the discovery loop; extracted-model trace inclusion (sampler replay) against the implementation",
  },
+ "C05": {
+  "text": "Theorems over the Gallina model of snapshot_git_object for ALL branch maps: manifest independent of insertion order, names emitted in strictly increasing byte order, an independent decoder recovering one (kind, name, target) record per branch for NUL-free names and targets of arbitrary length/content (length prefix), records determine branches hence manifest injectivity, the unresolved list is exactly the aliases to a missing branch or to themselves, raise iff non-empty and not ignored (carrying that list), id computed with ignore_unresolved=True. Tied to the code by byte-exact comparison of manifests, ids, raise/not and the ValueError's alias list on generated maps, plus the independent decoder applied to the implementation's own manifests and a spec-level encoder written from the statement.",
+  "design_ref": "DESIGN.md section 5, C05",
+  "note": COMMON_NOTE + "Python sorted() on (name, branch) tuples, '%d' and dict semantics are modelled. SHA-1 is uninterpreted in the theorems. The kind words come from the regenerated SnapshotTargetType table.",
+  "technique": "Coq proof (sorting/permutation, length-prefixed decode-encode) over a hand-written model + extracted-model differential correspondence + regenerated tables",
+ },
 }
